@@ -159,6 +159,8 @@ def make_dataset(rng, kind, scale_kind, tier):
     nv = rng.randint(6, 12)
     nq = 2
     npm = rng.choice([4, 5, 6])
+    if rng.random() < 0.25:
+        nq = npm = 4          # square (q, m) block: transposed indexing does not raise, it mixes
     v0 = rng.uniform(0.8, 1.6) if scale_kind == "unit" else rng.uniform(60.0, 900.0)
     hi, lo = rng.uniform(1.02, 1.10), rng.uniform(0.62, 0.80)
     vols = [v0 * (hi - (hi - lo) * (k + rng.uniform(-0.2, 0.2)) / (nv - 1)) for k in range(nv)]
@@ -310,7 +312,7 @@ def obs_lit(out):
                         for q in range(nq)) + "]" for v in range(ntv)) + "]"
 
 
-def library_tables(ds, method, order):
+def library_tables(ds, method, order, extrapolate=None):
     """call the scipy class exactly as the property's library contract describes it: on the flipped
     logarithms of the (sub-sampled) volumes and frequencies; returns per-mode tables"""
     import scipy.interpolate as si
@@ -329,14 +331,24 @@ def library_tables(ds, method, order):
                 iv = int(math.ceil(ds["nv"] / order))
                 xs, ys = numpy.flip(numpy.log(vols[::iv])), numpy.flip(numpy.log(fr[::iv]))
                 f = dict(pchip=si.PchipInterpolator, akima=si.Akima1DInterpolator)[method](xs, ys)
-            g0, g1, g2 = f(lx), f(lx, nu=1), f(lx, nu=2)
+            if extrapolate is None:
+                g0, g1, g2 = f(lx), f(lx, nu=1), f(lx, nu=2)
+            else:
+                g0, g1, g2 = (f(lx, extrapolate=extrapolate), f(lx, nu=1, extrapolate=extrapolate),
+                              f(lx, nu=2, extrapolate=extrapolate))
             tabs.append("(%s, %s, [%s])" % (flist(xs), flist(ys), "; ".join(
                 "(%s, %s, %s, %s)" % (fhex(x), fhex(a), fhex(b), fhex(c)) for x, a, b, c in zip(lx, g0, g1, g2))))
     return "[" + ";\n ".join(tabs) + "]"
 
 
 def case_lit(ds, method, order, out):
-    tabs = "[]" if method in POLY_METHODS else library_tables(ds, method, order)
+    # akima: the oracle is the scipy object evaluated in the mode the implementation uses - without
+    # extrapolation on the pinned tree (NaN outside the nodes: finding D4, reported by the search stage),
+    # with extrapolate=True once the output is finite everywhere
+    extrap = None
+    if method == "akima" and not numpy.isnan(out[0]).any():
+        extrap = True
+    tabs = "[]" if method in POLY_METHODS else library_tables(ds, method, order, extrap)
     return ("{| c_m := %s; c_order := %d; c_nq := %d; c_np := %d;\n c_vols := %s;\n c_freqs := %s;\n"
             " c_grid := %s;\n c_tabs := %s;\n c_obs := %s |}"
             % (COQ_METHOD[method], order, ds["nq"], ds["np"], flist(ds["vols"]), flist3(ds["table"]),
@@ -399,7 +411,7 @@ def oracle_exact(ctx, ds, method, order, out, stats):
                     tag = "powerlaw" if deg == 1 else "polynomial"
                     ctx.failure("%s-exact-%s-%s" % (tag, method, what),
                                 "%s data (degree %d in ln V): %s of method %s order %d deviates at V=%r (%s the sampled range)"
-                                % (tag, deg, what, method, order, v, "inside" if inside else "outside"),
+                                % (tag, deg, what, method, order, float(v), "inside" if inside else "outside"),
                                 input=dict(method=method, order=order, q=q, m=m, volume=v, **mode_input(ds, q, m)),
                                 expected=dict(omega=math.exp(p0), gamma=-p1, third=-p2),
                                 observed=dict(omega=w, gamma=g, third=h))
@@ -445,7 +457,7 @@ def oracle_consistency(ctx, mg, ds, method, order, out, stats):
                                 "method %s order %d: returned %s is not the %s of the returned %s (finite differences, "
                                 "step %g in ln V) at V=%r" % (method, order, what,
                                                               "-dln(omega)/dlnV" if what == "gamma" else "dgamma/dlnV",
-                                                              "omega" if what == "gamma" else "gamma", d, v),
+                                                              "omega" if what == "gamma" else "gamma", d, float(v)),
                                 input=dict(method=method, order=order, q=q, m=m, volume=v, v_array=sten[s],
                                            **mode_input(ds, q, m)),
                                 expected=float(exp), observed=float(obs))
@@ -683,13 +695,23 @@ def run(ctx):
 
     # 0. theorems
     shutil.copy(PROPS / "Prop_C11.v", rd / "Prop_C11.v")
-    ctx.prove(rd / "Prop_C11.v", "Prop_C11.v (theorems over R about PolyModel/InterpModel)", "theorem-file")
+    ok, pout = ctx.prove(rd / "Prop_C11.v", "Prop_C11.v (10 theorems over R about PolyModel/InterpModel)", "theorem-file")
+    # vlib.parse_assumptions misses axioms whose type is printed on the following line; collect them here
+    import re
+    ctx.axioms = {}
+    for ln in pout.splitlines():
+        mm = re.match(r"^([A-Za-z_][\w']*(?:\.[A-Za-z_][\w']*)+)\s*(:.*)?$", ln)
+        if mm:
+            ctx.axioms[mm.group(1)] = ctx.axioms.get(mm.group(1), 0) + 1
+    ctx.extra["theorems"] = ["polyder_is_derive", "triple_consistent_poly", "power_law_exact", "interpolant_unique",
+                             "lsq_poly_exact_upto_order", "lsq_power_law_exact", "loop_indexing", "plot_select_spec_iff",
+                             "plot_select_refuted", "triple_consistent_oracle"]
 
     # 1. plot selection (D6)
     run_plot(ctx, rd, mg)
 
     # 2. data sets and implementation runs
-    reps = 2 if quick else 8
+    reps = 2 if quick else 16
     datasets = []
     for rep in range(reps):
         for kind in ("powerlaw", "poly", "generic"):
